@@ -20,7 +20,7 @@ import (
 // The package draws its jitter with math/rand/v2.Float64() directly (no seam),
 // so the random answer r cannot be scripted. The oracle is therefore an
 // interval that must hold for EVERY r in [0,1); each (config, n) is evaluated
-// C20Draws times so both halves of the jitter range are exercised.
+// 64 (quick) / 512 (thorough) times so both halves of the jitter range are exercised.
 
 const c20Prec = 8192 // bits; 53*70 < 4096, so every product below is exact
 
@@ -243,7 +243,13 @@ func TestVerif_C20_BackoffFn(t *testing.T) {
 	for _, k := range classes {
 		fs := fails[k]
 		var sb strings.Builder
-		fmt.Fprintf(&sb, "%d failing (config, retries) inputs in this class. First: %s\nAll failing inputs (smallest retries per configuration):", len(fs), fs[0].desc)
+		det := 0
+		for _, f := range fs {
+			if f.c.Jitter == 0 {
+				det++
+			}
+		}
+		fmt.Fprintf(&sb, "%d failing (config, retries) inputs with Jitter=0 (deterministic) and %d with Jitter>0 (whether a borderline one fails depends on the un-scripted jitter draw). First: %s\nFailing inputs (smallest retries per configuration):", det, len(fs)-det, fs[0].desc)
 		seen := map[string]bool{}
 		var inputs []c20Case
 		for _, f := range fs {
